@@ -21,7 +21,7 @@ RULE = ("route: the three L_Data codes x {group, broadcast, own individual, fore
         "sched: 1-3+ concurrent senders x interface behaviours {immediate, delayed 0.1 s, slow 2.5 s, error, local confirmation} with "
         "confirmations / other frames (incl. T_Data_Connected to this interface, which makes Management send a T_ACK concurrently) injected at "
         "every loop-iteration boundary: every single action (12 kinds) exhaustively, every pair over the core alphabet {con, sender, tdc"
-        "[, grp, conp]} at the first 14 (quick) / 40 (thorough) boundaries, 3-6 actions sampled. non-trivial = distinct op lines")
+        "[, tcon, grp, conp]} at the first 14 (quick) / 40 (thorough) boundaries, 3-6 actions sampled. non-trivial = distinct op lines")
 TRUSTED = [
     "model XknxVerif.Model.CEMIHandler hand-written (route reuses the TPCI model of C03); message codes and REQUEST_TO_CONFIRMATION_TIMEOUT regenerated",
     "the KNX/IP interface is replaced by a stub whose send_cemi() is the hand-over point; Management/TelegramQueue/DataSecure hooks observed by subclass / callback",
@@ -458,7 +458,7 @@ def generate(rng, tier):
             for a in acts:
                 yield {"op": sched_op(modes, [(b, a)])}
         # depth 2 exhaustive over the core alphabet
-        core = ["con", "S", "tdc"] if tier == "quick" else ["con", "S", "tdc", "grp", "conp"]
+        core = ["con", "S", "tdc"] if tier == "quick" else ["con", "S", "tdc", "tcon", "grp", "conp"]
         lim = min(nb + 1, 14 if tier == "quick" else 40)
         for b1 in range(lim):
             for b2 in range(b1, lim):
